@@ -88,6 +88,16 @@ func checkGeometry(c Case) error {
 		}
 		k++
 	}
+	cancel := 0.0
+	{
+		maxVB := 0.0
+		for _, o := range c.Ops {
+			for _, f := range o.F {
+				maxVB = math.Max(maxVB, math.Abs(float64(f)))
+			}
+		}
+		cancel = (maxVB + math.Max(math.Abs(float64(vb[0])), math.Abs(float64(vb[1])))) * math.Max(g.SX, g.SY)
+	}
 	if len(rr.Calls) != len(exp) {
 		n := len(rr.Calls)
 		if len(exp) < n {
@@ -118,7 +128,9 @@ func checkGeometry(c Case) error {
 				return harness.Violatef("c05/draw-paint", "Draw paint %v, expected opaque black", call.P)
 			}
 		default:
-			m := math.Max(pathMax[pathOf[i]], 1)
+			// scale*(x - Min) is computed in float32: the rounding error is relative to
+			// |x| + |Min| (cancellation), not only to the pixel magnitude
+			m := math.Max(pathMax[pathOf[i]], 1) + cancel
 			tol := 16 * eps32 * m * float64(e.k+1)
 			n := map[rast.CallKind]int{rast.MoveTo: 2, rast.LineTo: 2, rast.QuadTo: 4, rast.CubeTo: 6}[call.K]
 			for j := 0; j < n; j++ {
